@@ -388,16 +388,16 @@ def normalize_url(
 
     # Quoting
     if user:
+        user = safely_unquote_auth_item(user)
+
         if quoted:
             user = safely_quote(user)
-        else:
-            user = safely_unquote_auth_item(user)
 
     if password:
+        password = safely_unquote_auth_item(password)
+
         if quoted:
-            password = safely_quote(password)
-        else:
-            password = safely_unquote_auth_item(password)
+            password = safely_quote(password, "/:")
 
     if quoted:
         path = safely_quote(path)
@@ -405,10 +405,10 @@ def normalize_url(
 
     query = safe_serialize_qsl(qsl)
 
+    fragment = safely_unquote_fragment(fragment)
+
     if quoted:
         fragment = safely_quote(fragment)
-    else:
-        fragment = safely_unquote_fragment(fragment)
 
     # Result
     netloc = unsplit_netloc(user, password, hostname, port)
